@@ -509,6 +509,48 @@ class FinalSnapshot:
         return V
 
 
+class Spheres:
+    """sixty colliding spheres in a box, every collision search x resolver: save after 20 steps, continue 200 steps (the order in
+    which a tree hands pairs to the resolver is part of what a restored simulation has to reproduce)"""
+    def __init__(self, rebound):
+        self.rebound = rebound
+
+    def __call__(self, task):
+        import random
+        collision, resolve, via = task
+        rb.quiet()
+        rebound = self.rebound
+        rng = random.Random(12345)          # one fixed layout
+        sim = rebound.Simulation()
+        sim.integrator = "leapfrog"
+        sim.gravity = "none"
+        sim.collision = collision
+        sim.collision_resolve = resolve
+        sim.configure_box(40.0)
+        sim.dt = 0.05
+        for i in range(60):
+            sim.add(m=1e-6, r=0.45, x=rng.uniform(-8, 8), y=rng.uniform(-8, 8), z=rng.uniform(-1, 1), vx=rng.uniform(-1, 1), vy=rng.uniform(-1, 1), vz=rng.uniform(-0.1, 0.1), hash=i + 1)
+        sim.steps(20)
+        if via == "copy":
+            c = sim.copy()
+        else:
+            fn = "/var/tmp/c05sph_%d.bin" % os.getpid()
+            sim.save_to_file(fn, delete_file=True)
+            c = rebound.Simulation(fn)
+            os.remove(fn)
+        c.collision_resolve = resolve
+
+        def st(s_):
+            return sorted((q.hash.value, q.x, q.y, q.z, q.vx, q.vy, q.vz, q.m, q.r, q.last_collision) for q in s_.particles if q.y == q.y)
+        n0 = sim.collisions_log_n
+        for k in range(10):
+            sim.steps(20)
+            c.steps(20)
+            if st(sim) != st(c):
+                return [("spheres:continue:%s:%s" % (collision, resolve), "original and restored simulation differ within %d further steps [60 spheres, collision=%s, resolver %s, saved via %s after 20 steps]" % (20 * (k + 1), collision, resolve, via))]
+        return []
+
+
 def configs(tier, avx):
     cfgs = []
     pts = lattice.integrator_points("full", avx=avx)
@@ -652,6 +694,14 @@ def run(ctx):
             continue
         for sig, what in r[1]:
             ctx.violation(sig, what, {"kind": "crowded", "task": list(t)})
+    spt = [(col, res_, via) for col in ("direct", "tree", "line", "linetree") for res_ in ("hardsphere", "merge") for via in ("copy", "file")]
+    spres = pool.run_tasks(Spheres(rebound), spt, timeout=600, chunk=1)
+    for t, r in zip(spt, spres):
+        if r[0] != "ok":
+            ctx.violation("spheres-%s:%s" % (r[0], t[0]), "%s in sphere case %s: %s" % (r[0], t, str(r[1])[-400:]), {"kind": "spheres", "task": list(t)})
+            continue
+        for sig, what in r[1]:
+            ctx.violation(sig, what, {"kind": "spheres", "task": list(t)})
     # the automatic snapshot at the end of integrate()
     fst = [(integ, o, cad, eft) for integ, o in [("whfast", {}), ("whfast", {"safe_mode": 0}), ("leapfrog", {}), ("ias15", {}), ("mercurius", {}), ("saba", {"type": "10,6,4"}), ("eos", {"phi0": "lf4", "phi1": "lf", "n": 2}), ("trace", {}), ("bs", {}), ("janus", {"order": 4})]
            for cad in ("interval", "step") for eft in (1, 0)]
@@ -663,7 +713,7 @@ def run(ctx):
         for sig, what in r[1]:
             ctx.violation(sig, what, {"kind": "final", "task": list(t)})
     cov = {
-        "whfast512_cases": n_w512, "crowded_system_cases": len(crt), "final_snapshot_cases": len(fst),
+        "whfast512_cases": n_w512, "crowded_system_cases": len(crt), "sphere_cases": len(spt), "final_snapshot_cases": len(fst),
         "states": len(states), "transitions": trans + nA, "traces_validated_against_impl": trans + nA,
         "samples": samples or [{"cfg": cfgs[0], "history": []}],
         "configs": len(cfgs), "histories_per_config": len(H), "max_depth": depth,
@@ -686,6 +736,10 @@ def replay(ctx, case):
     L = CLayouts(os.path.join(dbg, "obj"))
     size, leaves = L.get("struct reb_simulation")
     settable = settable_members(os.path.join(dbg, "include"), "/repo/docs")
+    if case.get("kind") == "spheres":
+        V = Spheres(rebound)(tuple(case["task"]))
+        print(V)
+        return 1 if V else 0
     if case.get("kind") == "final":
         V = FinalSnapshot(rebound, leaves)(tuple(case["task"]))
         print(V)
